@@ -52,6 +52,24 @@ Submit(r, con) ==
                /\ Step(<<sub, Ev("tx", r, IF con THEN "CON" ELSE "NON", q, TokOf(q), "req", q, FALSE, "")>>)
      /\ UNCHANGED <<shut, budget>>
 
+(* the kernel refuses the first datagram of a new request inside sendmsg     *)
+(* (no route, EPERM, ...): recvmsg's transport reports it synchronously      *)
+(* through error_received -> dispatch_error while TokenManager.request is    *)
+(* still in send_message; everything outstanding towards r fails, the new    *)
+(* request included (it is registered before it is sent)                     *)
+SubmitRefused(r, con) ==
+  LET q == Cardinality(DOMAIN rq) + 1
+      sub == Ev("submit", r, "", 0, "", "", q, con, "")
+      qs == {p \in Out : rq[p].r = r} \cup {q}
+  IN /\ q <= NReqs /\ ~shut /\ budget > 0
+     /\ con => \A p \in DOMAIN rq : ~(rq[p].r = r /\ rq[p].xopen)
+     /\ rq' = [p \in (DOMAIN rq) \cup {q} |->
+                IF p = q THEN [r |-> r, con |-> con, st |-> "done", xopen |-> FALSE]
+                ELSE IF rq[p].r = r THEN [rq[p] EXCEPT !.st = "done", !.xopen = FALSE] ELSE rq[p]]
+     /\ Step(<<sub, Ev("err", r, "", 0, "", "", 0, FALSE, "sync")>> \o DoneEvs(SetToSeq(qs), "net"))
+     /\ budget' = budget - 1
+     /\ UNCHANGED shut
+
 (* a response datagram from endpoint src carrying the token of request p    *)
 (* (p = 0: a token never issued); ty = "ACK" is piggy-backed on p's ID      *)
 RxResp(src, p, ty) ==
@@ -94,6 +112,7 @@ Shutdown ==
   /\ UNCHANGED budget
 
 Next == \/ \E r \in Remotes, con \in BOOLEAN : Submit(r, con)
+        \/ \E r \in Remotes, con \in BOOLEAN : SubmitRefused(r, con)
         \/ \E src \in Remotes, p \in (DOMAIN rq) \cup {0}, ty \in {"CON", "NON", "ACK"} : RxResp(src, p, ty)
         \/ \E src \in Remotes, p \in DOMAIN rq, ty \in {"ACK", "RST"} : RxEmpty(src, p, ty)
         \/ \E r \in Remotes : Err(r)
